@@ -75,7 +75,7 @@ func stringPool() []variant {
 	return []variant{
 		rv("minLength", "0", "1", "2"),
 		rv("maxLength", "0", "1", "2"),
-		rv("regex", `"^a"`, `"b$"`, `"a.c"`, `"^[ab]*$"`),
+		rv("regex", `"^a"`, `"b$"`, `"a.c"`, `"^[ab]*$"`, `"^ab$"`, `"\\Aab\\z"`, `"^(?:abc)$"`, `"^a\\.c$"`, `"ab"`, `"^$"`),
 		rv("nullable", "true", "false"),
 		rv("const", "true", "false"),
 		rv("type", `"string"`, `"email"`, `"uri"`, `"uuid"`, `"date"`, `"datetime"`),
@@ -111,14 +111,16 @@ func ruleSets(pool []variant, k int, f func([]gen.Rule)) {
 
 var intExamples = []string{"0", "1", "-1", "2", "10", "11", "-2", "5"}
 var floatExamples = []string{"0.5", "1.5", "-0.5", "0.75", "10.5", "0.25", "-1.5", "0.05", "2.25", "1.0"}
-var strExamples = []string{`""`, `"a"`, `"ab"`, `"abc"`, `"b"`, `"bc"`, `"a@b.cc"`, `"http://a.b/c"`, `"550e8400-e29b-41d4-a716-446655440000"`, `"2024-02-29"`, `"2023-01-31T23:59:59Z"`}
+var strExamples = []string{`""`, `"a"`, `"ab"`, `"abc"`, `"b"`, `"bc"`, `"a.c"`, `"a@b.cc"`, `"http://a.b/c"`, `"550e8400-e29b-41d4-a716-446655440000"`, `"2024-02-29"`, `"2023-01-31T23:59:59Z"`}
 
 var numProbes = []string{"-2", "-1.1", "-1.01", "-1", "-0.99", "-0.9", "-0.1", "-0.01", "0", "0.01", "0.1", "0.4", "0.49", "0.5", "0.51", "0.6", "0.9", "0.99", "1", "1.01", "1.1", "1.5", "2", "9", "9.9", "9.99", "10", "10.01", "10.1", "11", "0.125", "1.25", "1.255",
 	"1.0", "1e0", "10e-1", "0.5e1", "-0.0", "5e-1", "1E1", "0.50", "100e-1"}
 var strProbes = []string{`""`, `"a"`, `"ab"`, `"abc"`, `"abcd"`, `"b"`, `"ba"`, `"bc"`, `"xbc"`, `"A"`, `"\n"`, `"\""`, `"a"`, `"aXc"`, `"é"`, `"a\nc"`, `"1"`, `"true"`, `"null"`, `"a b"`, `"\\"`, `"\/"`,
 	// an unpaired surrogate escape followed by an ordinary \u escape: the second escape is a character of its own
 	`"\"abc\""`, `"\"\""`, `"\"a\""`, `"\"ab"`, `"a\"\"b"`, `"\\\"a\\\""`,
-	`"\ud83d\u0062"`, `"\udc00\u0061"`, `"a\ud83d\u0062"`, `"\ud83d\ude00b"`, `"\u0061\u0062"`}
+	`"\ud83d\u0062"`, `"\udc00\u0061"`, `"a\ud83d\u0062"`, `"\ud83d\ude00b"`, `"\u0061\u0062"`,
+	// strings that CONTAIN what an anchored pattern spells without being it
+	`"xab"`, `"abx"`, `"ab ab"`, `"ab\nab"`, `"a.c"`, `"a.c!"`, `"-a.c"`, `"axc"`, `"abcabc"`, `" abc"`}
 var otherProbes = []*gen.JV{gen.JNull(), gen.JBool("true"), gen.JBool("false"), gen.JObj(), gen.JArr(), gen.JArr(gen.JInt("1")), gen.JObj(gen.Member{Key: "a", Val: gen.JInt("1")})}
 
 func numJV(l string) *gen.JV {
